@@ -317,17 +317,20 @@ class P:
         return ("block", stmts, tail)
 
 
-def parse_fn(src, name):
-    """returns (params [(name, type)], ret type, body AST)"""
+def parse_fn(src, name, occ=0, key=None):
+    """returns (params [(name, type)], ret type, body AST); `occ` selects among several functions of that name in the file"""
     src = re.sub(r"//[^\n]*", "", src)
     src = re.sub(r"\bb?'(?:[^'\\\n]|\\.)'", "0", src)          # char / byte literals (keeps lifetimes)
     src = re.sub(r'"(?:[^"\\]|\\.)*"', '0', src, flags=re.S)
     m = None
+    seen = 0
     for cand in re.finditer(r"fn\s+" + re.escape(name) + r"\s*\(", src):
         nb = src.find("{", cand.end())
         if nb >= 0 and ";" not in src[cand.end():nb]:
-            m = cand
-            break
+            if seen == occ:
+                m = cand
+                break
+            seen += 1
     if not m:
         raise KeyError(name)
     i = src.index("{", m.end())
@@ -348,7 +351,7 @@ def parse_fn(src, name):
         is_mut_ref = p.at("&") and p.peek(1)[1] == "mut"
         params.append((pn, p.ty()))
         if is_mut_ref:
-            MUT_PARAMS.setdefault(name, []).append(pn)
+            MUT_PARAMS.setdefault(key or name, []).append(pn)
         p.opt(",")
     p.eat(")")
     ret = "()"
@@ -370,6 +373,9 @@ def signed(t):
     return isinstance(t, str) and t.startswith("i")
 
 
+FLOAT_BITS = {"f64": "u64", "f32": "u32"}      # a float value is carried as its bit pattern
+
+
 def bits(t):
     return 64 if t in ("usize", "isize") else int(t[1:])
 
@@ -377,6 +383,8 @@ def bits(t):
 def lean_ty(t):
     if t == "bool":
         return "Bool"
+    if isinstance(t, str) and t in FLOAT_BITS:
+        return "Nat"
     if isinstance(t, str) and t in INT_TYPES:
         return "Int" if signed(t) else "Nat"
     if isinstance(t, tuple) and t[0] == "tuple":
@@ -417,6 +425,29 @@ class Emit:
         self.tmp += 1
         return f"t{self.tmp}"
 
+    @staticmethod
+    def unify(a, b):
+        """combine the types of two branches: an untyped literal (defaulted to i32) yields to the other branch"""
+        if a is None:
+            return b
+        if b is None:
+            return a
+        if isinstance(a, tuple) and isinstance(b, tuple) and a[0] == b[0] == "tuple":
+            return ("tuple", [Emit.unify(x, y) for x, y in zip(a[1], b[1])])
+        if a == "i32" and b != "i32":
+            return b
+        return a
+
+    def branch_type(self, e):
+        if e[0] == "block":
+            return self.branch_type(e[2]) if (e[2] is not None) else None
+        if e[0] == "if" and e[3] is not None:
+            return Emit.unify(self.branch_type(e[2]), self.branch_type(e[3]))
+        try:
+            return self.type_of(e)
+        except Unsupported:
+            return None
+
     def wrap_ret(self, x):
         """the value a `return`/tail produces, preceded by the final values of the `&mut` parameters"""
         mp = MUT_PARAMS.get(self.fname, [])
@@ -443,8 +474,12 @@ class Emit:
                 return "RoundingMode"
             if e[1] == ["i128", "MAX"] or e[1] == ["i128", "MIN"]:
                 return "i128"
+            if len(e[1]) == 2 and e[1][0] in INT_TYPES and n == "BITS":
+                return "u32"
             if n == "None":
                 return ("Option", hint[1] if isinstance(hint, tuple) else "?")
+            if len(e[1]) == 2 and e[1][0] in ("Self", "Decimal") and n in ("ZERO", "ONE"):
+                return "Decimal"
             raise Unsupported(f"unknown name {e[1]}")
         if k == "cast":
             return e[2]
@@ -475,6 +510,10 @@ class Emit:
                 return ("tuple", [rt, rt])
             if m == "cmp":
                 return "Ordering"
+            if m == "to_bits" and isinstance(rt, str):
+                return FLOAT_BITS[rt]
+            if m in ("is_nan", "is_infinite"):
+                return "bool"
             return rt
         if k == "call":
             n = e[1][-1]
@@ -484,6 +523,8 @@ class Emit:
                 return ("Option", self.type_of(e[2][0]))
             if n in ("Ok", "Err"):
                 return hint
+            if n == "from" and len(e[1]) == 2 and e[1][0] in INT_TYPES:
+                return e[1][0]
             if n in self.sigs:
                 return self.sigs[n][1]
             if n in EXTERNAL:
@@ -550,12 +591,16 @@ class Emit:
                 return [], f"Gen.{self.consts[n][2]}" if self.consts[n][2] else str(self.consts[n][1])
             if n in MODE_NAMES:
                 return [], "Mode" + MODE_NAMES[n]
+            if len(e[1]) == 2 and e[1][0] in INT_TYPES and n == "BITS":
+                return [], str(bits(e[1][0]))
             if e[1] == ["i128", "MAX"]:
                 return [], "I128_MAX"
             if e[1] == ["i128", "MIN"]:
                 return [], "I128_MIN"
             if n == "None":
                 return [], "none"
+            if len(e[1]) == 2 and e[1][0] in ("Self", "Decimal") and n in ("ZERO", "ONE"):
+                return [], f"Model.Dec.{n}"
             raise Unsupported(f"name {e[1]}")
         if k == "tuple":
             ls, xs = [], []
@@ -570,6 +615,8 @@ class Emit:
             if src_t == dst:
                 return ls, x
             # widening unsigned → unsigned, or any value known to fit keeps its value; we always emit the wrap
+            if signed(dst) and not signed(src_t):
+                return ls, f"(IntTy.{dst}.cast ((({x}) : Nat) : Int))"
             if signed(dst):
                 return ls, f"(IntTy.{dst}.cast ({x}))"
             if not signed(src_t) and bits(src_t) <= bits(dst):
@@ -723,7 +770,8 @@ class Emit:
             if signed(t) and b[0] == "lit" and b[1] < bits(t):
                 return ls, f"(IntTy.{t}.cast (({xa}) * 2 ^ {xb}))"   # shifted-out bits are dropped
             if signed(t):
-                raise Unsupported("<< on signed")
+                v = self.fresh()
+                return ls + [f"let {v} ← Rt.shlI IntTy.{t} prof ({xa}) ({xb})"], v
             if b[0] == "lit" and b[1] < bits(t):
                 return ls, f"(Rt.wrapU {bits(t)} (({xa}) <<< {xb}))"
             v = self.fresh()
@@ -769,6 +817,12 @@ class Emit:
             return ls, f"(compare ({xr}) ({xs[0]}))"
         if m == "signum" and signed(t):
             return ls, f"(Int.sign ({xr}))"
+        if isinstance(t, str) and t in FLOAT_BITS:
+            if m == "to_bits":
+                return ls, xr
+            if m in ("is_nan", "is_infinite"):
+                return ls, f"(Rt.{t}_{m} ({xr}))"
+            raise Unsupported(f"float method {m}")
         if m == "is_negative":
             return ls, f"decide ({xr} < 0)"
         if m == "is_positive":
@@ -793,6 +847,14 @@ class Emit:
         if n == "Some":
             ls, x = self.ex(args[0], hint[1] if isinstance(hint, tuple) else None)
             return ls, f"(some {x})"
+        if n == "from" and len(path) == 2 and path[0] in INT_TYPES:
+            st = self.type_of(args[0])
+            ls, x = self.ex(args[0], st)
+            if signed(path[0]) and not signed(st):
+                return ls, f"((({x}) : Nat) : Int)"
+            if signed(path[0]) == signed(st):
+                return ls, x
+            raise Unsupported("from: signed to unsigned")
         if n == "Ok":
             ls, x = self.ex(args[0], hint[1] if isinstance(hint, tuple) and hint[0] == "Result" else None)
             return ls, f"(Except.ok {x})"
@@ -849,7 +911,7 @@ class Emit:
             _, p, ty, e = s
             if ty is None and e[0] == "lit" and not e[2] and isinstance(self.ret, str) and self.ret in INT_TYPES:
                 ty = self.ret
-            t = ty or self.type_of(e)
+            t = ty or (self.branch_type(e) if e[0] == "if" else None) or self.type_of(e)
             if t is None and e[0] == "match":
                 st = self.type_of(e[1])
                 saved = dict(self.env)
@@ -1168,7 +1230,7 @@ class Emit:
 # ----------------------------------------------------------------------------- driver
 GROUP_IMPORTS = {"KPow": ["Fpdec.Gen.Consts"], "KDivRounded": ["Fpdec.Gen.KRound", "Fpdec.Gen.KPow", "Fpdec.Model.Core"],
                  "KDecDiv": ["Fpdec.Gen.KDivRounded"], "KDecMul": ["Fpdec.Gen.KDivRounded", "Fpdec.Model.Decimal"], "KNorm": [],
-                 "KFloat": ["Fpdec.Gen.KNorm", "Fpdec.Gen.Consts", "Fpdec.Model.Core"], "KRem": ["Fpdec.Gen.KPow"]}
+                 "KFloat": ["Fpdec.Gen.KNorm", "Fpdec.Gen.Consts", "Fpdec.Model.Core", "Fpdec.Model.Decimal"], "KRem": ["Fpdec.Gen.KPow"]}
 LOOP_FUEL.update({("normalize", 1): 256, ("approx_rational", 1): 32, ("rem", 1): 256})
 KERNELS = [
     # (group, file, fn name, self type for trait methods)
@@ -1187,6 +1249,10 @@ KERNELS = [
     ("KNorm", "src/lib.rs", "normalize", None),
     ("KFloat", "src/from_float.rs", "approx_rational", None),
     ("KRem", "src/binops/rem.rs", "rem", None),
+    ("KFloat", "src/from_float.rs", "f64_decode", None),
+    ("KFloat", "src/from_float.rs", "f32_decode", None),
+    ("KFloat", "src/from_float.rs", "try_from", "Decimal", {"occ": 0, "as": "try_from_f32"}),
+    ("KFloat", "src/from_float.rs", "try_from", "Decimal", {"occ": 1, "as": "try_from_f64"}),
     ("KWide", "fpdec-core/src/lib.rs", "u128_hi", None),
     ("KWide", "fpdec-core/src/lib.rs", "u128_lo", None),
     ("KWide", "fpdec-core/src/lib.rs", "u128_mul_u128", None),
@@ -1227,17 +1293,24 @@ def translate(repo):
     def sub(t, selfty):
         if t == "Self":
             return selfty
+        if t == "Error":
+            return "DecimalError"
         if isinstance(t, tuple) and t[0] == "tuple":
             return ("tuple", [sub(x, selfty) for x in t[1]])
         if isinstance(t, tuple):
-            return (t[0], sub(t[1], selfty))
+            return (t[0], *[sub(x, selfty) for x in t[1:]])
         return t
     failed = {}
-    for g, f, name, selfty in KERNELS:
+    entries = []
+    for ent in KERNELS:
+        g, f, fname, selfty = ent[:4]
+        opts = ent[4] if len(ent) > 4 else {}
+        entries.append((g, f, fname, selfty, opts, opts.get("as", fname)))
+    for g, f, fname, selfty, opts, name in entries:
         try:
             if f not in srcs:
                 srcs[f] = (repo / f).read_text()
-            params, ret, body = parse_fn(srcs[f], name)
+            params, ret, body = parse_fn(srcs[f], fname, opts.get("occ", 0), name)
             params = [(n, sub(t, selfty)) for n, t in params]
             ret = sub(ret, selfty)
             parsed[name] = (params, ret, body, selfty)
@@ -1251,7 +1324,7 @@ def translate(repo):
             "import Fpdec.Gen.Rt"] + [f"import {m}" for m in GROUP_IMPORTS.get(g, [])] + ["",
             f"/-! GENERATED by tools/fpkernels.py from /repo — do not edit.  Mechanical translation of Rust kernels (group {g}). -/",
             "", "namespace Fpdec.Gen.K", "open Fpdec", ""])
-    for g, f, name, selfty in KERNELS:
+    for g, f, fname, selfty, opts, name in entries:
         out = header(g)
         lines = None
         if name not in failed:
@@ -1275,7 +1348,7 @@ def translate(repo):
                 ps = " ".join(f"({n} : {lean_ty(t)})" for n, t in params)
                 tmarg = "(tm : Mode) " if em.needs_tm else ""
                 TM_NEEDED[name] = em.needs_tm
-                lines = list(getattr(em, "aux", [])) + [f"/-- {f}: `fn {name}` -/",
+                lines = list(getattr(em, "aux", [])) + [f"/-- {f}: `fn {fname}`" + (f" (occurrence {opts['occ'] + 1} in the file)" if "occ" in opts else "") + " -/",
                          f"def {name} (prof : Profile) {tmarg}{ps} : Outcome {lean_ty(ret)} := do",
                          term.rstrip("\n"), ""]
             except Exception as e:                  # noqa: BLE001
